@@ -28,6 +28,7 @@ import (
 	"go.minekube.com/gate/pkg/edition/java/proto/version"
 	"go.minekube.com/gate/pkg/gate/proto"
 	"go.minekube.com/gate/pkg/internal/packetlimiter"
+	"go.minekube.com/gate/pkg/internal/verifhook"
 	"go.minekube.com/gate/pkg/util/errs"
 )
 
@@ -288,6 +289,7 @@ func (c *minecraftConn) startReadLoop() {
 		defer func() { // Catch any panics
 			if r := recover(); r != nil {
 				c.log.Error(nil, "recovered panic in packets read loop", "panic", r)
+				verifhook.Event("cc.recovered")
 				ok = true // recovered, keep going
 			}
 		}()
@@ -361,17 +363,21 @@ func (c *minecraftConn) bufferPacket(packet proto.Packet, canQueue bool) (err er
 		c.mu.Lock()
 		playPacketQueue := c.playPacketQueue
 		c.mu.Unlock()
+		verifhook.Point("pq.readptr", "active", playPacketQueue != nil)
 		queued, queueErr := playPacketQueue.Queue(packet)
 		if queueErr != nil {
+			verifhook.Event("pq.overflow")
 			return queueErr
 		}
 		if queued {
+			verifhook.Event("pq.queued")
 			// Packet was queued, don't write it now
 			c.log.V(1).Info("queued packet", "packet", fmt.Sprintf("%T", packet))
 			return nil
 		}
 	}
 	_, err = c.wr.WritePacket(packet)
+	verifhook.Event("pq.written", "ok", err == nil, "direct", canQueue)
 	return err
 }
 
@@ -416,7 +422,9 @@ var ErrClosedConn = errors.New("connection is closed")
 
 func (c *minecraftConn) closeKnown(markKnown bool) (err error) {
 	alreadyClosed := true
+	verifhook.Point("cc.close.enter", "known", markKnown)
 	c.closeOnce.Do(func() {
+		verifhook.Point("cc.once")
 		defer c.SetAutoReading(true) // free the read loop in case auto reading is disabled
 
 		alreadyClosed = false
@@ -434,6 +442,7 @@ func (c *minecraftConn) closeKnown(markKnown bool) (err error) {
 				p.PlayerLog().Info("player has disconnected", "sessionHandler", fmt.Sprintf("%T", sh))
 			}
 		}
+		verifhook.Event("cc.torn")
 	})
 	if alreadyClosed {
 		err = ErrClosedConn
@@ -563,6 +572,7 @@ func (c *minecraftConn) activatePlayPacketQueue() {
 func (c *minecraftConn) ensurePlayPacketQueue(newState states.State) {
 	if newState == states.ConfigState { // state exists since 1.20.2+
 		c.activatePlayPacketQueue()
+		verifhook.Event("pq.activate")
 		return
 	}
 
@@ -572,6 +582,7 @@ func (c *minecraftConn) ensurePlayPacketQueue(newState states.State) {
 			c.log.Error(err, "error releasing play packet queue")
 		}
 		c.playPacketQueue = nil
+		verifhook.Event("pq.release")
 	}
 }
 
